@@ -28,6 +28,11 @@ CONSTANTS
   OneDimQuirk, \* model line 2929 of array_ref.hpp as written (TRUE) or as intended (FALSE)
   Emit         \* print one JSON line per transition
 
+(* named constant sets for configurations (a .cfg file cannot spell negative numbers) *)
+BasesZero  == {0}
+BasesMixed == {-1, 0, 2}
+BasesWide  == {-2, -1, 0, 1, 3}
+
 VARIABLES root, abs, impl, path
 vars == <<root, abs, impl, path>>
 VW   == <<root, abs, impl>>        \* VIEW: programs reaching the same state are merged
